@@ -144,9 +144,9 @@ def run(ctx):
             ctx.count("roundtrip_attribute_sets")
     ctx.exhaustive = True
     rng = ctx.rng
-    for _ in range(ctx.share(4000 if ctx.quick else 200000)):
+    for _ in range(ctx.share(4000 if ctx.quick else 600000)):
         run_case(ctx, {"spec": obs.rand_spec(rng, 5, 4, ALPHABET)})
         ctx.count("roundtrip_random")
-    for _ in range(ctx.share(15000 if ctx.quick else 600000)):
+    for _ in range(ctx.share(15000 if ctx.quick else 2000000)):
         run_case(ctx, {"string": rand_grammar(rng)})
         ctx.count("grammar_strings")
